@@ -265,7 +265,7 @@ class Bits:
             return ''
         if length > MAX_CHARS * 4:
             # Too long for hex. Truncate...
-            return ''.join(('0x', self[0:MAX_CHARS*4]._gethex(), '...'))
+            return ''.join(('0x', self._absolute_slice(0, MAX_CHARS*4)._gethex(), '...'))
         # If it's quite short and we can't do hex then use bin
         if length < 32 and length % 4 != 0:
             return '0b' + self.bin
@@ -275,8 +275,8 @@ class Bits:
         # Otherwise first we do as much as we can in hex
         # then add on 1, 2 or 3 bits on at the end
         bits_at_end = length % 4
-        return ''.join(('0x', self[0:length - bits_at_end]._gethex(),
-                        ', ', '0b', self[length - bits_at_end:]._getbin()))
+        return ''.join(('0x', self._absolute_slice(0, length - bits_at_end)._gethex(),
+                        ', ', '0b', self._absolute_slice(length - bits_at_end, length)._getbin()))
 
     def _repr(self, classname: str, length: int, pos: int):
         pos_string = f', pos={pos}' if pos else ''
